@@ -211,7 +211,7 @@ func has(list []string, k string) bool { return indexOf(list, k) < len(list) }
 func origContainer(c Case, id string) *api.Container {
 	o := c.Orig
 	ct := &api.Container{Id: id, PodSandboxId: "pod-" + id, Name: "ctr-" + id, State: api.ContainerState_CONTAINER_CREATED,
-		Labels: map[string]string{"l": "v"}}
+		Labels: map[string]string{"l": "v"}, Pid: 4242, CreatedAt: 1700000000, StatusReason: "r", StatusMessage: "m"}
 	if c.Kind != "create" {
 		// update / stop requests carry an existing container; give it a plausible fixed shape
 		ct.State = api.ContainerState_CONTAINER_RUNNING
@@ -252,7 +252,7 @@ func origContainer(c Case, id string) *api.Container {
 	}
 	needLinux := len(o.Devices) > 0 || len(o.Res) > 0 || o.Cgroups || o.Oom || !o.NilParts
 	if needLinux {
-		ct.Linux = &api.LinuxContainer{}
+		ct.Linux = &api.LinuxContainer{Namespaces: []*api.LinuxNamespace{{Type: "pid"}, {Type: "network", Path: "/proc/1/ns/net"}}}
 		for _, k := range o.Devices {
 			ct.Linux.Devices = append(ct.Linux.Devices, mkDevice(0, k))
 		}
